@@ -518,6 +518,12 @@ func (x *Exec) scopeVars(st *State, fr *Frame) map[string]Val {
 func (x *Exec) loopSpec(fn *ssa.Function, li *loopInfo) *LoopSpec {
 	fs := x.prog.spec.Funcs[x.prog.relName(fn)]
 	if fs == nil || fs.Loops[li.ordinal] == nil {
+		if fn != x.fn {
+			// a loop inside an inlined, uncontracted helper: no invariant is known, everything the loop may
+			// write is forgotten at its head (sound; weak)
+			x.notes = append(x.notes, fmt.Sprintf("loop %d of inlined %s has no invariant: its effects are havocked", li.ordinal, x.prog.relName(fn)))
+			return &LoopSpec{}
+		}
 		panic(unsupported(fmt.Sprintf("loop %d of %s has no invariant", li.ordinal, x.prog.relName(fn))))
 	}
 	return fs.Loops[li.ordinal]
@@ -1157,11 +1163,23 @@ func (x *Exec) step(st *State, b *ssa.BasicBlock, idx int, in ssa.Instruction) b
 	case *ssa.MakeMap:
 		obj := st.newObject()
 		mt := in.Type().Underlying().(*types.Map)
-		dom, val, _, hasVal := mapSorts(mt)
-		st.storeLeaf(dom, extend(obj, []int{0}), zeroOfSort(dom))
-		if hasVal {
-			st.storeLeaf(val, extend(obj, []int{1}), zeroOfSort(val))
-		}
+		func() {
+			defer func() {
+				if r := recover(); r != nil {
+					if _, ok := r.(unsupportedErr); !ok {
+						panic(r)
+					}
+					// a map whose values have several leaves (map[string]interface{}): only its identity is
+					// modelled; reading or writing its contents stays unsupported
+					x.notes = append(x.notes, "map with multi-leaf values allocated: contents not modelled")
+				}
+			}()
+			dom, val, _, hasVal := mapSorts(mt)
+			st.storeLeaf(dom, extend(obj, []int{0}), zeroOfSort(dom))
+			if hasVal {
+				st.storeLeaf(val, extend(obj, []int{1}), zeroOfSort(val))
+			}
+		}()
 		x.setReg(st, in, Val{T: in.Type(), L: []Term{obj}})
 	case *ssa.MakeChan:
 		obj := st.newObject()
@@ -1253,8 +1271,24 @@ func (x *Exec) step(st *State, b *ssa.BasicBlock, idx int, in ssa.Instruction) b
 	case *ssa.Panic:
 		x.panicInstr(st, in)
 		return false
-	case *ssa.Range, *ssa.Next:
-		panic(unsupported("range over map/string"))
+	case *ssa.Range:
+		// iteration over a map or a string: the iterator is opaque
+		x.setReg(st, in, Val{T: in.Type(), L: nil})
+		x.notes = append(x.notes, "range over a map/string: iteration order and the set of visited keys are not modelled (every Next yields an arbitrary key/value or ends)")
+		return true
+	case *ssa.Next:
+		// (ok, key, value): over-approximated by arbitrary values
+		tp := in.Type().(*types.Tuple)
+		out := Val{T: tp}
+		for i := 0; i < tp.Len(); i++ {
+			t := tp.At(i).Type()
+			if b, ok := t.(*types.Basic); ok && b.Kind() == types.Invalid {
+				continue // unused component
+			}
+			out.L = append(out.L, st.freshVal("next", t).L...)
+		}
+		x.setReg(st, in, out)
+		return true
 	default:
 		panic(unsupported(fmt.Sprintf("instruction %T", in)))
 	}
